@@ -148,10 +148,20 @@ RULE =('real TransmissionModel, 2-25 layers, 1-5 wavenumbers, 2-4 trace gases (c
         'LeeMie, HydrogenIon} (at least two) in shuffled insertion order, opacity regime thin/mid/thick; every 3rd case '
         'has a trace gas (first/middle/last) at EXACTLY zero abundance (constant, some layers, all layers); every case '
         'carries a route history (parameters of a contribution / a gas changed through the fitting-parameter setters '
-        'after a run, or a never-run model; then model_full_contrib / model_contrib / model in varying order). distinct '
+        'after a run, or a never-run model; then model_full_contrib / model_contrib / model in varying order); the chemistry '
+        'is a TaurexChemistry, every 4th case a plugin-style Chemistry subclass, every 5th case a ChemistryFile wrapped with the '
+        'MakeFreeMixin (makefree+file: molecules of the file replaced by free gases - absorbing and not -, new molecules added, '
+        'renormalised); for every gas the look-up get_gas_mix_profile is compared with the Lean rule MixLookup.gasMix on the '
+        'published tables, the freed tables with MixLookup.freedActive / freedInactive, and every component is judged against '
+        'cross-section x the row of the PUBLISHED table. distinct '
         'non-trivial = distinct (contribution multiset, layers, regime) with a transmittance strictly between 0 and 1')
 ASSUMPTIONS = ['per-species cross-sections opacity(T_l, P_l, wn), cia(T_l, wn) and the Rayleigh / H- laws are taken from '
                'the real cache objects (C04 models the interpolation); their abundance weighting and summation is modelled',
+               '"that species\' mixing ratio" = the row of the chemistry\'s published activeGasMixProfile / inactiveGasMixProfile '
+               '(what the density, the mean molecular weight and the stored output use); which row get_gas_mix_profile hands to '
+               'the contributions is modelled (MixLookup.gasMix), and so are the tables of a chemistry wrapped with MakeFreeMixin '
+               '(MixLookup.freedActive / freedInactive: free profile replaces the wrapped row, new molecules appended, all '
+               'divided by the column sum); the mean molecular weight of such a chemistry is NOT judged here (TODO bucket)',
                'np.interp onto the native grid for species tabulated on another grid (inside Opacity.opacity)',
                'licensed deviation of C01 (tau>10 early exit): a row may differ from the product only if every '
                'wavenumber of the returned row is below exp(-10) and not below the product',
@@ -205,6 +215,10 @@ def gen_case(rng, k):
     # keeping its tables; the base get_gas_mix_profile returns views of them)
     if k % 4 == 2:
         spec['chem_kind'] = 'table'
+    # quota (every 5th case): a tabulated chemistry (ChemistryFile) wrapped with the MakeFreeMixin ('makefree+file'): molecules
+    # of the file REPLACED by free gases, further free molecules added, everything renormalised (built below, once the
+    # trace gases are final)
+    makefree = k % 5 == 1
     if rng.random() < 0.6:
         mol = spec['gases'][int(rng.integers(0, len(spec['gases'])))]['mol']
         pair = 'H2-' + mol
@@ -240,8 +254,12 @@ def gen_case(rng, k):
             spec['cia'].append(FM.gen_cia(rng, 'H2-' + g['mol'], FM.gen_wngrid(rng, int(rng.integers(2, 6))), -40.0, -34.0,
                                           nT=int(rng.integers(1, 4))))
             pairs.append('H2-' + g['mol'])
+    if makefree:
+        make_free_file(rng, spec)
     pool = ['absorption', 'cia', 'rayleigh', 'clouds', 'haze', 'hm']
     want = [p for p in pool if rng.random() < 0.55]
+    if makefree:
+        want = sorted(set(want) | {'absorption', 'rayleigh'}, key=pool.index)
     if zero_class:
         want = sorted(set(want) | {'absorption', 'rayleigh', 'cia'}, key=pool.index)
     if 'cia' in want and not pairs:
@@ -281,6 +299,35 @@ def gen_case(rng, k):
     spec['contributions'] = [cs[i] for i in rng.permutation(len(cs))]
     spec['alt_order'] = [int(i) for i in rng.permutation(len(cs))]
     spec['route_history'] = gen_route_history(rng, spec)
+    return spec
+
+
+def make_free_file(rng, spec):
+    """turn the composition of `spec` into a chemistry file (H2, He, some of the trace molecules with abundances of the
+    FILE's own, sometimes N2) made free: every trace gas of the spec becomes a free gas (replacing the file's column when the
+    file has the molecule, added otherwise); sometimes the file's N2 is freed too and O2 is added as a new molecule without a
+    table"""
+    nl = spec['nlayers']
+    mols = [g['mol'] for g in spec['gases']]
+    infile = [m for m in mols if rng.random() < 0.65] or [mols[int(rng.integers(0, len(mols)))]]
+    x = np.linspace(0.0, 1.0, nl)
+    cols = {}
+    for m in infile:
+        cols[m] = 10 ** rng.uniform(-8, -2) * (1.0 + rng.uniform(-0.6, 0.6) * x)
+    if rng.random() < 0.6:
+        cols['N2'] = rng.uniform(0.005, 0.1) * (1.0 + rng.uniform(-0.5, 0.5) * x)
+    he = rng.uniform(0.08, 0.2) * (1.0 + rng.uniform(-0.3, 0.3) * x)
+    h2 = 1.0 - he - sum(cols.values())
+    names = ['H2', 'He'] + list(cols)
+    rows = [h2, he] + [cols[m] for m in cols]
+    order = [0, 1] + [int(i) + 2 for i in rng.permutation(len(cols))] if rng.random() < 0.5 else \
+        [int(i) for i in rng.permutation(len(names))]
+    spec['chem_kind'] = 'makefree-file'
+    spec['chem_file'] = dict(gases=[names[i] for i in order], table=[np.asarray(rows[i], float) for i in order])
+    if 'N2' in cols and rng.random() < 0.6:
+        spec['gases'].append(dict(mol='N2', type='constant', mix=float(rng.uniform(0.01, 0.3))))
+    if rng.random() < 0.4:
+        spec['gases'].append(dict(mol='O2', type='array', mix=rng.uniform(0.001, 0.05, size=nl)))
     return spec
 
 
@@ -328,7 +375,9 @@ def small(spec):
 
 
 def oracle_components(m, contrib, wn):
-    """(kind, names, xsecs[comp][layer][wn], mixes…) recomputed from the cache objects and the chemistry"""
+    """(kind, names, xsecs[comp][layer][wn], mixes…) recomputed from the cache objects and the chemistry: the mixing ratio
+    of a species is the row of the chemistry's published activeGasMixProfile / inactiveGasMixProfile tables (T.chem_mix), NOT
+    what get_gas_mix_profile hands to the contributions (that look-up is checked by chemistry_checks)"""
     from taurex.cache import OpacityCache, CIACache
     from taurex.util.scattering import rayleigh_sigma_from_name
     chem = m.chemistry
@@ -337,19 +386,19 @@ def oracle_components(m, contrib, wn):
     if name == 'AbsorptionContribution':
         gases = list(chem.activeGases)
         xs = [[np.asarray(OpacityCache()[g].opacity(t, p, wn), float) for t, p in zip(Tp, Pp)] for g in gases]
-        mix = [np.asarray(chem.get_gas_mix_profile(g), float) for g in gases]
+        mix = [T.chem_mix(chem, g) for g in gases]
         return 'abs', gases, xs, (mix,)
     if name == 'CIAContribution':
         pairs = list(contrib.ciaPairs)
         xs = [[np.asarray(CIACache()[pr].cia(t, wn), float) for t in Tp] for pr in pairs]
-        m1 = [np.asarray(chem.get_gas_mix_profile(pr.split('-')[0]), float) for pr in pairs]
-        m2 = [np.asarray(chem.get_gas_mix_profile(pr.split('-')[1]), float) for pr in pairs]
+        m1 = [T.chem_mix(chem, pr.split('-')[0]) for pr in pairs]
+        m2 = [T.chem_mix(chem, pr.split('-')[1]) for pr in pairs]
         return 'cia', pairs, xs, (m1, m2)
     if name == 'RayleighContribution':
         gases, laws, mix = [], [], []
         for g in list(chem.activeGases) + list(chem.inactiveGases):
             law = rayleigh_sigma_from_name(g, wn)
-            prof = np.asarray(chem.get_gas_mix_profile(g), float)
+            prof = T.chem_mix(chem, g)
             if law is not None and prof.max() != 0.0:
                 gases.append(g)
                 laws.append(np.asarray(law, float))
@@ -401,6 +450,63 @@ def check_sigma(ctx, m, wn, spec):
         if not C.close(total.ravel(), sum(exp).ravel(), rel=1e-11, abs_=1e-15 * sc):
             ctx.violation('sigma-not-sum:' + cname, 'sigma_xsec is not the sum of its components', spec,
                           dict(got=total[:, 0], expected=sum(exp)[:, 0]))
+
+
+def _enc_table(names, rows):
+    return C.L(list(zip(names, rows)), lambda p: C.S(p[0]) + ' ' + C.L(p[1]))
+
+
+def chemistry_checks(ctx, m, spec):
+    """which abundance the contributions are handed for a species: (1) the look-up `get_gas_mix_profile(name)` against the
+    Lean rule MixLookup.gasMix evaluated on the chemistry's published tables, for every gas and for a name the chemistry does
+    not have; (2) for a chemistry wrapped with MakeFreeMixin, the published tables themselves against MixLookup.freedActive /
+    freedInactive evaluated on the file's columns and the free gases.  Both are correspondence (mismatch); the property's
+    statement - component = cross-section x the species' mixing ratio in the atmosphere - is judged by check_sigma."""
+    chem = m.chemistry
+    n = int(m.nLayers)
+    act, ina = [str(g) for g in chem.activeGases], [str(g) for g in chem.inactiveGases]
+    A = [np.array(r, float) for r in (chem.activeGasMixProfile if len(act) else [])]
+    I = [np.array(r, float) for r in (chem.inactiveGasMixProfile if len(ina) else [])]
+    kind = spec.get('chem_kind') or 'taurex'
+    sm = dict(small(spec), chem_kind=kind)
+    for g in act + ina + ['XX']:
+        d = ctx.model().call('c03.gasmix', C.N(n), _enc_table(act, A), _enc_table(ina, I), C.S(g))
+        mod = d.opt(lambda: d.list())
+        try:
+            impl = [float(x) for x in np.asarray(chem.get_gas_mix_profile(g), float)]
+        except KeyError:
+            impl = None
+        ctx.disagreements_checked += 1
+        if (impl is None) != (mod is None) or (impl is not None and not C.close(impl, mod, rel=1e-13, abs_=0.0)):
+            ctx.mismatch('Chemistry.get_gas_mix_profile vs MixLookup.gasMix on the published tables', dict(spec, small=sm),
+                         dict(gas=g, impl=impl, model=mod, table='active' if g in act else 'inactive' if g in ina else None))
+        ctx.bucket('mix-lookup:%s:%s' % (kind, 'active' if g in act else 'inactive' if g in ina else 'unknown-name'))
+    if kind != 'makefree-file':
+        return
+    cf = spec['chem_file']
+    avail = set(str(x) for x in chem.availableActive)
+    base = list(zip([str(g) for g in cf['gases']], [np.asarray(r, float) for r in cf['table']]))
+    bact = [b for b in base if b[0] in avail]
+    bina = [b for b in base if b[0] not in avail]
+    free = []
+    for g in spec['gases']:
+        prof = np.full(n, float(g['mix'])) if g.get('type', 'constant') == 'constant' else np.asarray(g['mix'], float)
+        free.append((g['mol'], prof, g['mol'] in avail))
+        where = 'replaces-active' if g['mol'] in [b[0] for b in bact] else 'replaces-inactive' if g['mol'] in \
+            [b[0] for b in bina] else ('new-active' if g['mol'] in avail else 'new-inactive')
+        ctx.bucket('makefree:free-gas:' + where)
+    d = ctx.model().call('c03.makefree', C.N(n), _enc_table(*zip(*bact)) if bact else '0',
+                         _enc_table(*zip(*bina)) if bina else '0',
+                         C.L(free, lambda f: C.S(f[0]) + ' ' + C.L(f[1]) + ' ' + C.N(1 if f[2] else 0)))
+    mact = d.list(lambda: (d.str(), d.list()))
+    mina = d.list(lambda: (d.str(), d.list()))
+    ctx.check_eq('MakeFreeMixin.activeGases / inactiveGases vs MixLookup.freedActive / freedInactive', (act, ina),
+                 ([x[0] for x in mact], [x[0] for x in mina]), sm)
+    if [x[0] for x in mact] == act and [x[0] for x in mina] == ina:
+        ctx.check_close('MakeFreeMixin.activeGasMixProfile vs MixLookup.freedActive', np.ravel(A),
+                        np.ravel([x[1] for x in mact]), sm, rel=1e-12)
+        ctx.check_close('MakeFreeMixin.inactiveGasMixProfile vs MixLookup.freedInactive', np.ravel(I),
+                        np.ravel([x[1] for x in mina]), sm, rel=1e-12)
 
 
 def eval_case(ctx, spec, extras=True):
@@ -498,6 +604,7 @@ def eval_case(ctx, spec, extras=True):
                     ctx.violation('stored-component:' + nm, 'store_contributions component differs from model_full_contrib',
                                   spec, dict(component=cn))
                     break
+    chemistry_checks(ctx, m, spec)
     check_sigma(ctx, m, wn, spec)
     zero_gas_checks(ctx, spec, m, wn, trans, depth)
     if extras:
@@ -509,6 +616,7 @@ def eval_case(ctx, spec, extras=True):
     ctx.case(key=(tuple(sorted(c['type'] for c in spec['contributions'])), n, spec.get('regime')) if mixed else None,
              sample=dict(sm, trans=trans[:2, 0], product=mprod[:2, 0]), bucket='regime:' + str(spec.get('regime')))
     ctx.bucket('ncontrib:%d' % len(names))
+    ctx.bucket('chemistry:' + (spec.get('chem_kind') or 'taurex'))
     for c in spec['contributions']:
         ctx.bucket('contrib:' + c['type'])
     if collision:
@@ -557,17 +665,20 @@ def extra_checks(ctx, spec, m, wn, trans, depth, names):
             j = cons_all[int(rng.integers(0, len(cons_all)))]
             gs = [dict(g) for g in spec['gases']]
             gs[j]['mix'] = float(gs[j]['mix'] * rng.choice([0.0, 0.3, 2.0]))
-            ratio = float(rng.uniform(0.05, 0.3))
+            has_ratio = spec.get('chem_kind') != 'makefree-file'      # the fill-gas ratio is a parameter of TaurexChemistry
+            ratio = float(rng.uniform(0.05, 0.3)) if has_ratio else spec['ratio']
             FM.spec_install(spec)
             m[gs[j]['mol']] = gs[j]['mix']
-            m['He_H2'] = ratio
+            if has_ratio:
+                m['He_H2'] = ratio
             wr, dr, tr, _ = m.model()
             _, _, df, tf, _, _ = T.run_real(dict(spec, gases=gs, ratio=ratio))
             if not (np.array_equal(np.asarray(tr), tf) and np.array_equal(np.asarray(dr), df)):
                 ctx.violation('stale-state', 'a model reused after model[name] = value differs from a freshly built one', spec,
                               dict(gas=gs[j]['mol'], mix=gs[j]['mix'], ratio=ratio, reused=np.asarray(dr), fresh=df))
             m[gs[j]['mol']] = spec['gases'][j]['mix']
-            m['He_H2'] = spec['ratio']
+            if has_ratio:
+                m['He_H2'] = spec['ratio']
             FM.spec_install(spec)
             m.model()
             ctx.bucket('reuse-rerun')
@@ -587,9 +698,17 @@ def extra_checks(ctx, spec, m, wn, trans, depth, names):
             m3 = FM.build_model(dict(spec, gases=gs))
             m3.model()
             s_c = np.array([x for x in m3.contribution_list if type(x).__name__ == 'HydrogenIon'][0].sigma_xsec, float)
-            if not C.close(s_c.ravel(), (s_ref * c).ravel(), rel=1e-10, abs_=1e-300):
+            if spec.get('chem_kind') == 'makefree-file':
+                # a chemistry that renormalises: scaling the free abundance by c changes the column sum, hence the abundance
+                # in the atmosphere of H AND of e-; the opacity must follow the product of the two abundances in the atmosphere
+                p1 = T.chem_mix(m.chemistry, 'H') * T.chem_mix(m.chemistry, 'e-')
+                p3 = T.chem_mix(m3.chemistry, 'H') * T.chem_mix(m3.chemistry, 'e-')
+                s_want = s_ref * (p3 / p1)[:, None]
+            else:
+                s_want = s_ref * c
+            if not C.close(s_c.ravel(), s_want.ravel(), rel=1e-10, abs_=1e-300):
                 ctx.violation('hm-not-proportional', 'H- opacity is not proportional to the %s abundance' % which, spec,
-                              dict(c=c, got=s_c[:, 0], expected=(s_ref * c)[:, 0]))
+                              dict(c=c, got=s_c[:, 0], expected=s_want[:, 0]))
             ctx.bucket('hm-rerun:c=%g' % c)
         except Exception as e:
             ctx.violation('raises-hm:' + type(e).__name__, 'model with scaled H/e- raised %r' % (e,), spec)
@@ -610,9 +729,15 @@ def extra_checks(ctx, spec, m, wn, trans, depth, names):
             FM.spec_install(spec)
             c2 = {nm: np.array(s, float) for nm, s in a2.prepare_each(m2, wn)}
             molj = spec['gases'][j]['mol']
+            renorm = spec.get('chem_kind') == 'makefree-file'
             for nm in c1:
                 want = c1[nm] * (c if nm == molj else 1.0)
-                if not C.close(c2[nm].ravel(), want.ravel(), rel=1e-12, abs_=1e-300):
+                if renorm:
+                    # a chemistry that renormalises: the abundance in the atmosphere of EVERY species changes by the ratio of
+                    # the column sums; each component must follow its own species' abundance (exact zeros stay zero)
+                    a1, a2 = T.chem_mix(m.chemistry, nm), T.chem_mix(m2.chemistry, nm)
+                    want = c1[nm] * np.where(a1 != 0, a2 / np.where(a1 != 0, a1, 1.0), 0.0)[:, None]
+                if not C.close(c2[nm].ravel(), want.ravel(), rel=1e-11 if renorm else 1e-12, abs_=1e-300):
                     ctx.violation('sigma-not-proportional', 'component opacity is not proportional to its own abundance '
                                   '(or depends on another species\')', spec,
                                   dict(scaled=molj, c=c, component=nm, got=c2[nm][:, 0], expected=want[:, 0]))
@@ -784,6 +909,10 @@ def without_gas(spec, mol):
     """the same atmosphere with `mol` removed altogether (gas, table, CIA pairs that name it)"""
     s2 = dict(spec)
     s2['gases'] = [g for g in spec['gases'] if g['mol'] != mol]
+    if spec.get('chem_file'):
+        cf = spec['chem_file']
+        keep = [i for i, g in enumerate(cf['gases']) if g != mol]
+        s2['chem_file'] = dict(gases=[cf['gases'][i] for i in keep], table=[cf['table'][i] for i in keep])
     s2['opacities'] = [o for o in spec['opacities'] if o['mol'] != mol]
     s2['cia'] = [c for c in spec['cia'] if mol not in c['pair'].split('-')]
     cs = []
@@ -803,7 +932,7 @@ def zero_gas_checks(ctx, spec, m, wn, trans, depth):
         return
     mol = z['mol']
     ctx.bucket('zero-gas:%s:%s' % (z['position'], z['mode']))
-    prof = np.asarray(m.chemistry.get_gas_mix_profile(mol), float)
+    prof = T.chem_mix(m.chemistry, mol)
     zero_layers = prof == 0.0
     if not zero_layers.any():
         ctx.violation('zero-gas-not-zero', 'a gas given exactly zero abundance has a non-zero mixing ratio', spec,
@@ -822,6 +951,14 @@ def zero_gas_checks(ctx, spec, m, wn, trans, depth):
                 break
         contrib.prepare(m, wn)
     if not zero_layers.all():
+        return
+    if spec.get('chem_kind') == 'makefree-file' and mol in spec['chem_file']['gases']:
+        # TODO (genuine /repo defect, reported; belongs to the composition / structure properties C10 / C11): the mean
+        # molecular weight of a chemistry wrapped with MakeFreeMixin is computed from the WRAPPED chemistry's own table
+        # (MakeFreeMixin.compute_mu_profile -> AutoChemistry.compute_mu_profile reads self.mixProfile = the file): a molecule of
+        # the file freed to zero still weighs in with the file's abundance, so the scale height - and with it the spectrum -
+        # differs from the atmosphere without the molecule although no opacity differs.  Not judged here.
+        ctx.bucket('TODO:makefree-mu-from-unfreed-table:zero-vs-absent-not-judged')
         return
     s2 = without_gas(spec, mol)
     if not s2['opacities']:
